@@ -756,7 +756,7 @@ func runProxy(sc proxyScenario) (problems []string, skipped string) {
 	}
 	var hung *websocket.Conn // fault "kick-hung": the first endpoint is a peer that never answers
 	hungClosed := make(chan struct{})
-	if sc.fault == "kick-hung" || sc.fault == "kick-hung-hinted" || sc.fault == "graceful-silent" {
+	if sc.fault == "kick-hung" || sc.fault == "kick-hung-hinted" || sc.fault == "graceful-silent" || sc.fault == "fatal-frame" {
 		u := "ws" + strings.TrimPrefix(ts.URL, "http") + "/"
 		hung, _, err = websocket.DefaultDialer.Dial(u, nil)
 		if err != nil {
@@ -802,6 +802,10 @@ func runProxy(sc proxyScenario) (problems []string, skipped string) {
 		if sc.fault == "graceful-silent" {
 			// no newer endpoint: the peer itself asks to stop
 			hung.WriteMessage(websocket.BinaryMessage, append(snix.U64(0), 7, 0))
+		} else if sc.fault == "fatal-frame" {
+			// serving ends on a protocol error while the socket is perfectly healthy: a reply carrying an error
+			// code; the proxy must still release the connection, or the endpoint behind it waits for ever
+			hung.WriteMessage(websocket.BinaryMessage, append(snix.U64(1<<40), 1, 9))
 		} else {
 			ep2, err = dialEP() // a newer connection under the same name kicks the hung one
 			if err != nil {
@@ -1136,7 +1140,7 @@ func main() {
 			ops = append(ops, proxyScenario{fault, 2, "legacy"}.canon())
 		}
 		ops = append(ops, proxyScenario{"side-dial-orphaned", 1, "siding"}.canon(), proxyScenario{"side-dial-orphaned", 0, "siding-addr"}.canon())
-		ops = append(ops, proxyScenario{"side-handshake-hung", 1, "siding-addr"}.canon(), proxyScenario{"graceful-silent", 1, "legacy"}.canon())
+		ops = append(ops, proxyScenario{"side-handshake-hung", 1, "siding-addr"}.canon(), proxyScenario{"graceful-silent", 1, "legacy"}.canon(), proxyScenario{"fatal-frame", 1, "legacy"}.canon())
 		// many idle multiplexed connections (each keeps a read outstanding at the endpoint) when the tunnel goes
 		ops = append(ops, proxyScenario{"sever", 130, "legacy"}.canon())
 		if f.Thorough() {
